@@ -5,7 +5,7 @@ import json, re, sys, os
 res = {}
 for path in sys.argv[1:]:
     cur = None
-    for line in open(path):
+    for line in open(path, errors="replace"):
         m = re.match(r"== (C\d\d-\d+)", line)
         if m:
             cur = m.group(1); res.setdefault(cur, {}); continue
